@@ -1344,4 +1344,112 @@ theorem static_round_files (f : FloatOps) (sh : ExecShape) (hcb : sh.cpusetCache
     · exact hcont
     · exact hc
 
+/-! ### 17. the two node-annotation sources are read independently (extension round 4) -/
+
+/-- every shape of the system-QoS annotation other than a well-formed exclusive cpuset (1 exclusive by default,
+    2 `cpusetExclusive: true`) protects nothing: 0 absent, 3 `cpusetExclusive: false`, 4 malformed JSON, 5 exclusive cpuset
+    string rejected by cpuset.Parse ("6, 7", "a", "0-"), 6 exclusive reversed range ("3-1": parses to the empty set),
+    7 `cpusetExclusive: false` with a rejected string; likewise every reservation shape other than 1. -/
+theorem anno_shapes_unreadable (sk rk : Int) (cpus : List Int) :
+    ((sk ≠ 1 ∧ sk ≠ 2) → effSysExcl sk cpus = []) ∧ (rk ≠ 1 → effReserved rk cpus = []) := by
+  refine ⟨fun h => ?_, fun h => ?_⟩
+  · simp [effSysExcl, h.1, h.2]
+  · simp [effReserved, h]
+
+/-- **an unreadable source says nothing about the other one**: with an unreadable (or shared, or absent) system-QoS
+    annotation both cpuset paths behave exactly as without that annotation — in particular a well-formed node reservation
+    still protects its CPUs — and symmetrically for an unreadable reservation. -/
+theorem unreadable_source_as_absent (f : FloatOps) (kp : Int) (topoNil : Bool) (b : Int) (oldN : Nat) (procs : List Proc)
+    (pods : List PodC) (rk sk : Int) (rc sc : List Int) :
+    ((sk ≠ 1 ∧ sk ≠ 2) →
+      adjustFull f kp topoNil b oldN procs pods (effReserved rk rc) (effSysExcl sk sc) =
+        adjustFull f kp topoNil b oldN procs pods (effReserved rk rc) (effSysExcl 0 []) ∧
+      calcBESet procs pods (effReserved rk rc) (effSysExcl sk sc) = calcBESet procs pods (effReserved rk rc) (effSysExcl 0 [])) ∧
+    (rk ≠ 1 →
+      adjustFull f kp topoNil b oldN procs pods (effReserved rk rc) (effSysExcl sk sc) =
+        adjustFull f kp topoNil b oldN procs pods (effReserved 0 []) (effSysExcl sk sc) ∧
+      calcBESet procs pods (effReserved rk rc) (effSysExcl sk sc) = calcBESet procs pods (effReserved 0 []) (effSysExcl sk sc)) := by
+  refine ⟨fun h => ?_, fun h => ?_⟩
+  · rw [(anno_shapes_unreadable sk rk sc).1 h]; exact ⟨rfl, rfl⟩
+  · rw [(anno_shapes_unreadable sk rk rc).2 h]; exact ⟨rfl, rfl⟩
+
+/-- **the protected set is the union of every well-formed source**, on both paths and at every cgroup level: whatever
+    the other annotation looks like, no CPU of a well-formed `reservedCPUs` and no CPU of a well-formed exclusive
+    system-QoS cpuset is written by adjustByCPUSet (any kubelet policy, any level) or offered by calcBECPUSet. -/
+theorem wellformed_sources_protect (f : FloatOps) (hf : FloatOK f) (kp : Int) (topoNil : Bool) (b : Int) (oldN : Nat)
+    (procs : List Proc) (pods : List PodC) (rk sk : Int) (rc sc : List Int) (hnd : (cpusOf procs).Nodup) :
+    (∀ c ∈ calcBESet procs pods (effReserved rk rc) (effSysExcl sk sc),
+        (rk = 1 → c ∉ rc) ∧ ((sk = 1 ∨ sk = 2) → c ∉ sc)) ∧
+    (∀ w, adjustFull f kp topoNil b oldN procs pods (effReserved rk rc) (effSysExcl sk sc) = some w →
+      ∀ cs, (w.root = some cs ∨ w.pod = some cs ∨ w.cont = some cs) → ∀ c ∈ cs,
+        (rk = 1 → c ∉ rc) ∧ ((sk = 1 ∨ sk = 2) → c ∉ sc)) := by
+  have hres : ∀ c, c ∉ effReserved rk rc → (rk = 1 → c ∉ rc) := by
+    intro c h hk; simpa [effReserved, hk] using h
+  have hsys : ∀ c, c ∉ effSysExcl sk sc → ((sk = 1 ∨ sk = 2) → c ∉ sc) := by
+    intro c h hk
+    rcases hk with hk | hk <;> simpa [effSysExcl, hk] using h
+  have hrec : ∀ c ∈ calcBESet procs pods (effReserved rk rc) (effSysExcl sk sc),
+      (rk = 1 → c ∉ rc) ∧ ((sk = 1 ∨ sk = 2) → c ∉ sc) := by
+    intro c hc
+    have := ((recover_sound procs pods _ _ hnd).2 c).1 hc
+    exact ⟨hres c this.2.1, hsys c this.2.2.1⟩
+  have hsel : ∀ cs, adjustCPUSet f b oldN procs pods (effReserved rk rc) (effSysExcl sk sc) = .write cs → ∀ c ∈ cs,
+      (rk = 1 → c ∉ rc) ∧ ((sk = 1 ∨ sk = 2) → c ∉ sc) := by
+    intro cs hw c hc
+    have := (written_sound f hf b oldN procs pods _ _ cs hnd hw).2.1 c hc
+    exact ⟨hres c this.2.1, hsys c this.2.2.1⟩
+  refine ⟨hrec, ?_⟩
+  intro w hw cs hlev c hc
+  unfold adjustFull at hw
+  split at hw
+  · cases hw; simp [Written.nothing] at hlev
+  · split at hw
+    · cases hw; simp [Written.nothing] at hlev
+    · split at hw
+      · cases hw
+      · split at hw
+        · cases hw
+          simp only [Option.some.injEq, reduceCtorEq, or_false, or_self] at hlev
+          subst hlev; exact hrec c hc
+        · cases hw; simp [Written.nothing] at hlev
+      · rename_i cs' hcs
+        split at hw
+        · cases hw; simp [Written.nothing] at hlev
+        · split at hw
+          · cases hw
+            simp only [Option.some.injEq] at hlev
+            rcases hlev with h | h | h
+            · subst h; exact hrec c hc
+            · subst h; exact hrec c hc
+            · subst h; exact hsel _ hcs c hc
+          · cases hw
+            simp only [Option.some.injEq, or_self] at hlev
+            subst hlev; exact hsel _ hcs c hc
+
+/-- the seeded shape "one helper collects both sources and RETURNS on the first unreadable one" (system QoS first):
+    an unreadable system-QoS cpuset then also drops the reservation. -/
+def foldedEarlyReturn (rk : Int) (rc : List Int) (sk : Int) (sc : List Int) : List Int × List Int :=
+  if sk == 5 then ([], []) else (if rk == 1 then rc else [], effSysExcl sk sc)
+
+/-- 8 CPUs, one socket, 4 cores × 2 threads (adjacent siblings). -/
+def demo8 : List Proc := [⟨0, 0, 0, 0⟩, ⟨1, 0, 0, 0⟩, ⟨2, 1, 0, 0⟩, ⟨3, 1, 0, 0⟩, ⟨4, 2, 0, 0⟩, ⟨5, 2, 0, 0⟩, ⟨6, 3, 0, 0⟩, ⟨7, 3, 0, 0⟩]
+
+/-- … and is NOT what the statement asks for: 8 CPUs, reservation `0-1` (well-formed), exclusive system-QoS cpuset
+    `"6, 7"` (rejected): the code (model) hands BE 2-7 on the recover path and 2-5 for a 4-CPU budget, the folded helper
+    0-7 and a selection made of the reserved CPUs 0 and 1 (and 2, 3). -/
+theorem folded_early_return_counterexample :
+    calcBESet demo8 [] (effReserved 1 [0, 1]) (effSysExcl 5 [6, 7]) = [2, 3, 4, 5, 6, 7] ∧
+    adjustCPUSet exactOps 4000 8 demo8 [] (effReserved 1 [0, 1]) (effSysExcl 5 [6, 7]) = .write [2, 3, 4, 5] ∧
+    calcBESet demo8 [] (foldedEarlyReturn 1 [0, 1] 5 [6, 7]).1 (foldedEarlyReturn 1 [0, 1] 5 [6, 7]).2 = [0, 1, 2, 3, 4, 5, 6, 7] ∧
+    adjustCPUSet exactOps 4000 8 demo8 [] (foldedEarlyReturn 1 [0, 1] 5 [6, 7]).1 (foldedEarlyReturn 1 [0, 1] 5 [6, 7]).2 =
+      .write [0, 1, 2, 3] := by
+  decide
+
+/-- the directed example of the harness's annotation cells: reservation well-formed, system-QoS cpuset rejected / reversed /
+    shared-and-rejected: the reservation still protects 0 and 1, the system-QoS CPUs 6 and 7 are NOT protected. -/
+example : calcBESet demo8 [] (effReserved 1 [0, 1]) (effSysExcl 6 [6, 7]) = [2, 3, 4, 5, 6, 7] ∧
+    calcBESet demo8 [] (effReserved 1 [0, 1]) (effSysExcl 7 [6, 7]) = [2, 3, 4, 5, 6, 7] ∧
+    calcBESet demo8 [] (effReserved 2 [0, 1]) (effSysExcl 2 [6, 7]) = [0, 1, 2, 3, 4, 5] ∧
+    calcBESet demo8 [] (effReserved 1 [0, 1]) (effSysExcl 1 [6, 7]) = [2, 3, 4, 5] := by decide
+
 end KoordVerif.C10
